@@ -1,5 +1,6 @@
-(* C08 - Position independence under module relocation (theorem) and stack relocation (oracle). *)
-From FH Require Import Consts Word X86 A64 Unwinder X86Unw A64Unw ModFacts RelocFacts.
+(* C08 - Position independence under module relocation (theorem) and stack relocation (theorem for
+   every cached rule of both architectures and for walks over rules; oracle for the rest). *)
+From FH Require Import Consts Word X86 A64 Unwinder X86Unw A64Unw ModFacts RelocFacts ShiftFacts.
 Open Scope N_scope.
 
 (* [moved d md]: the same module mapped d bytes higher - range and base address moved together,
@@ -45,3 +46,42 @@ Theorem C08_uncovered_relocated : forall mdata l a d,
   match find_module mdata l' (a + d) with Ok None => True | _ => False end.
 Proof. exact find_module_none_uniform. Qed.
 Print Assumptions C08_uncovered_relocated.
+
+(* ---- stack relocation.  The thread's stack [lo, hi) is placed s bytes higher: every word (register
+   or memory) that points into [lo, hi] moves by s, every other word (code, null, scratch) is
+   unchanged and lies at least DIST = 2^20 bytes away from both stacks; [shm m] is the relocated
+   memory, [sh] the relocation of a value.  One rule execution then gives the same kind of
+   outcome, the return address relocated by [sh] (unchanged for code), the new stack pointer
+   exactly + s, every other register relocated, and read errors naming the corresponding address. *)
+Theorem C08_stack_relocated_x86_rule : forall lo hi s,
+  2 * DIST <= lo -> lo <= hi -> hi + s + 2 * DIST < W64 ->
+  forall ru first rg rg' m,
+  mem_ok lo hi s m -> rule_wf ru = true -> rrel lo hi s rg rg' -> vok lo hi s rg -> spok lo hi rg ->
+  out_rel lo hi s (exec ra_addr_checked ru first rg m) (exec ra_addr_checked ru first rg' (shm lo hi s m)).
+Proof. exact exec_x_stack_shift. Qed.
+Print Assumptions C08_stack_relocated_x86_rule.
+
+(* whole walks served from cached rules: frame by frame the same, up to the offsets *)
+Theorem C08_stack_relocated_x86_walk : forall lo hi s,
+  2 * DIST <= lo -> lo <= hi -> hi + s + 2 * DIST < W64 ->
+  forall m, mem_ok lo hi s m -> forall rs first rg rg',
+  Forall (fun r => rule_wf r = true) rs -> rrel lo hi s rg rg' -> vok lo hi s rg -> spok lo hi rg ->
+  Forall2 (res_rel lo hi s) (fst (run_rules rs first rg m)) (fst (run_rules rs first rg' (shm lo hi s m))) /\
+  rrel lo hi s (snd (run_rules rs first rg m)) (snd (run_rules rs first rg' (shm lo hi s m))).
+Proof. exact run_rules_stack_shift. Qed.
+Print Assumptions C08_stack_relocated_x86_walk.
+
+(* aarch64: k is the pointer-authentication mask, which must keep every address up to the top of
+   both stacks; words used as return addresses stay of their kind when stripped ([cok]) *)
+Theorem C08_stack_relocated_a64_rule : forall lo hi s,
+  2 * DIST <= lo -> lo <= hi -> hi + s + 2 * DIST < W64 ->
+  forall k, (forall v, v <= hi + s -> strip k v = v) ->
+  forall ru first rg rg' m,
+  mem_ok_a lo hi s k m -> arule_wf ru = true -> arel lo hi s k rg rg' -> avok lo hi s k rg ->
+  lo <= asp rg -> asp rg + s + 2 * DIST < W64 ->
+  aout_rel lo hi s k (aexec ru first rg m) (aexec ru first rg' (shm lo hi s m)).
+Proof. exact aexec_stack_shift. Qed.
+Print Assumptions C08_stack_relocated_a64_rule.
+
+(* the premises are satisfiable by a real-looking two-frame stack moved by 4 GiB *)
+Check shift_premises_hold.
